@@ -210,6 +210,22 @@ def run(ctx):
         configs.append(('cache(n=None)', r, (lambda T=T: etl.wrap(T).cache()), ('cache', None, T)))
         configs.append(('cache(n=3)', r, (lambda T=T: etl.wrap(T).cache(3)), ('cache', 3, T)))
         configs.append(('sort(buffersize=2,cache=True)', r, (lambda T=T: etl.sort(T, 'k', buffersize=2, tempdir=tmpd)), None))
+    # a generator whose pickled rows fill several 8 KiB blocks: a lagging iterator paused inside a block the leader has left
+    for nmid, pause in ((700, 11), (700, 250), (1500, 600)):
+        vmid = etl.fromdicts(({'a': i, 'txt': 'row-%d' % i} for i in range(nmid)), header=['a', 'txt'])
+        lead, lag = iter(vmid), iter(vmid)
+        got_lag = [tuple(next(lag)) for _ in range(pause)]
+        taken = [tuple(r) for r in itertools.islice(lead, pause + 260)]
+        got_lag += [tuple(r) for r in lag]
+        rest = [tuple(r) for r in lead]
+        want_mid = [('a', 'txt')] + [(i, 'row-%d' % i) for i in range(nmid)]
+        ctx.case(('fromdicts(generator)', 'several-blocks', nmid, pause))
+        ctx.count('view:fromdicts-blocks')
+        if got_lag != want_mid or taken + rest != want_mid or [tuple(r) for r in vmid] != want_mid:
+            bad = next((i for i, (x, y) in enumerate(zip(got_lag, want_mid)) if x != y), min(len(got_lag), len(want_mid)))
+            ctx.spec_fail('fromdicts|blocks|wrong-rows', 'fromdicts(generator) of %d items: the lagging one of two iterators does not yield the rows of a solo pass' % nmid,
+                          {'items': nmid, 'laggard paused after': pause, 'lagging iterator first differs at row': bad, 'rows it delivered': len(got_lag)})
+        del vmid, lead, lag
     # thorough tier: a generator longer than any in-memory buffer a view may keep (100 000 rows and more), a leader far ahead
     # of a lagging iterator
     if ctx.thorough():
